@@ -93,6 +93,7 @@ def check(ctx: Ctx):
                  f'attribute of the evolvent, so the configured density cannot reach it ({err})',
                  key=f'R20.2::{e.forward.short}::level-loop')
         return
+    e.report_level_table('R20.2')
     # which constructor parameter is stored in the density attribute?
     ex = ctx.explorer()
     dparam = None
@@ -130,6 +131,8 @@ def check(ctx: Ctx):
     for fn in (e.forward, e.inverse):
         lp = e.level_loop(fn)
         it = lp.iter
+        if fn is e.forward and e.level_table() is not None:
+            continue            # table form: the number of rows is the obligation reported above
         ok = e.loop_bound_attr(fn, lp) == dens and \
             not any(isinstance(x, (ast.Break,)) for b in lp.body for x in ast.walk(b)
                     if not isinstance(b, (ast.For, ast.While)))
